@@ -122,7 +122,7 @@ store_harness!(c10_foreign_id_after_own_target, {
 });
 
 //@ harness: c10_foreign_address_request
-//@ tier: quick
+//@ tier: thorough
 //@ timeout: 700
 //@ mem: 20
 //@ covers: any
@@ -157,6 +157,54 @@ store_harness!(c10_foreign_address_request, {
     assert!(!has(&store, &ID_A));
     let addr = Addr { kind: Kind::from_u16(30023), author: Pubkey::from_bytes(PK_2), d: vec![b'x'] };
     assert!(ok!(store.naddr_is_deleted_asof(&addr)).is_none(), "a refused request left a deletion marker on another author's address");
+    core::mem::forget(addr);
+    core::mem::forget(store);
+});
+
+//@ harness: c10_foreign_address_phase
+//@ tier: quick
+//@ timeout: 700
+//@ mem: 16
+//@ covers: any
+//@ unwindset: put_bytes=80; heed::bytes_=260; heed::Table=6; memcmp.0=80; repeat::Repeat=190; Repeat.*try_fold=190; mmap_append=200; read_hex=34; enc_tags=6; c10_foreign=80; from_utf8=80; run_utf8_validation=80; splitn=80; next=80; position=80; parse=12; from_str=12
+//@ cbmc: --max-field-sensitivity-array-size 1100
+//@ encodes: Store::handle_deletion_event (a tag: Addr::try_from_bytes, author comparison BEFORE Lmdb::mark_naddr_deleted and the removal scans), Store::naddr_is_deleted_asof
+//@ bounds: fresh store; the deletion phase of Store::store_event (handle_deletion_event inside a write transaction, as store_event calls it) for a request (kind 5, created_at arbitrary in 4096..=4351) by author A whose only tag is an `a` tag naming the address 30023:<author B>:x of ANOTHER author: refused as an invalid delete, and even before the transaction is dropped no deletion marker for B's address is visible in it - the author is compared before anything is marked
+//@ outside: the full store_event around it (thorough: c10_foreign_address_request, did not finish in 700 s); requests naming stored events of another author by id (thorough)
+store_harness!(c10_foreign_address_phase, {
+    let store = verif_store();
+    let mut pool = [0u8; 73];
+    pool[0] = b'a';
+    put_bytes(&mut pool, 1, b"30023:");
+    let mut i = 0;
+    while i < 64 {
+        pool[7 + i] = b'2';
+        i += 1;
+    }
+    pool[71] = b':';
+    pool[72] = b'x';
+    let lo: u8 = kani::any();
+    let td: u64 = 0x1000 + lo as u64;
+    let mut db = [0u8; 250];
+    let nd = enc_event_img(5, td, &ID_A, &PK_1, &SIG_0, &[&[1, 72]], &pool, b"", &mut db);
+    let addr = Addr { kind: Kind::from_u16(30023), author: Pubkey::from_bytes(PK_2), d: vec![b'x'] };
+    let mut txn = ok!(store.indexes.write_txn());
+    let r = store.handle_deletion_event(&mut txn, as_event(&db[..nd]));
+    let o = match r {
+        Ok(()) => Outcome::Stored,
+        Err(e) => {
+            let invalid = matches!(e.inner, InnerError::InvalidDelete);
+            core::mem::forget(e);
+            if invalid { Outcome::InvalidDelete } else { Outcome::Other }
+        }
+    };
+    kani::cover!(lo == 0);
+    assert!(o == Outcome::InvalidDelete, "a deletion request naming another author's address was not refused");
+    // nothing was marked inside the transaction either
+    let pending = ok!(store.indexes.when_is_naddr_deleted(&txn, &addr));
+    assert!(pending.is_none(), "another author's address was marked before the author check");
+    drop(txn);
+    assert!(ok!(store.naddr_is_deleted_asof(&addr)).is_none());
     core::mem::forget(addr);
     core::mem::forget(store);
 });
